@@ -133,15 +133,18 @@ Reply(p, kind, c) ==
   /\ (kind \in {"cur", "nobit"} => sid[c] # 0 /\ sid[c] \in known)
   /\ (kind = "old" => old[c] # 0 /\ old[c] # sid[c] /\ old[c] \in known)
   /\ (kind = "unknown" => c = 0)
+  \* "unsent": the (predictable) id of a request of c that was allocated but never written: cancelled or superseded while
+  \* it waited for a pipe
+  /\ (kind = "unsent" => old[c] # 0 /\ old[c] # sid[c] /\ old[c] \notin known /\ known # {})
   /\ LET m == nextMsg
          A == IF kind # "cur" \/ Len(rq[c]) >= RecvCap THEN S0
               ELSE IF rwait[c] # <<>> THEN
                    Fin(Deliver([S0 EXCEPT !.rwait = [@ EXCEPT ![c] = Tail(@)]], c, m), Head(rwait[c]).op, "ok", m)
               ELSE [S0 EXCEPT !.rq = [@ EXCEPT ![c] = Append(@, m)], !.readable = IF c = 0 THEN TRUE ELSE @]
      IN Apply(A, [a |-> "inject", p |-> p, m |-> m, rkind |-> kind,
-                  rtag |-> IF kind \in {"cur", "nobit"} THEN sid[c] ELSE IF kind = "old" THEN old[c] ELSE 0,
+                  rtag |-> IF kind \in {"cur", "nobit"} THEN sid[c] ELSE IF kind \in {"old", "unsent"} THEN old[c] ELSE 0,
                   short |-> FALSE, out |-> [rv |-> "delivered"]])
-  /\ answers' = Append(answers, [m |-> nextMsg, ctx |-> c, tag |-> IF kind = "cur" THEN sid[c] ELSE IF kind = "old" THEN old[c] ELSE 0])
+  /\ answers' = Append(answers, [m |-> nextMsg, ctx |-> c, tag |-> IF kind = "cur" THEN sid[c] ELSE IF kind \in {"old", "unsent"} THEN old[c] ELSE 0])
   /\ nextMsg' = nextMsg + 1
   /\ UNCHANGED <<up, used, open1, stime, now, known>>
 \* the respondent goes away, or sends a message without an id (the socket disconnects it): surv0_pipe_close
@@ -173,7 +176,7 @@ Next == \/ (\E c \in Ctxs : Send(c, "nb") \/ Send(c, "aio") \/ Recv(c, "nb", 0) 
         \/ (\E k \in 1..MaxOps : Cancel(k)) \/ CtxOpen
         \/ (\E c \in Ctxs, v \in STimes : SetSTime(c, v))
         \/ (\E p \in Pipes : Connect(p) \/ Take(p) \/ Lost(p, "close") \/ Lost(p, "short")
-                             \/ \E c \in Ctxs, kd \in {"cur", "old", "unknown", "nobit"} : Reply(p, kd, c))
+                             \/ \E c \in Ctxs, kd \in {"cur", "old", "unknown", "nobit", "unsent"} : Reply(p, kd, c))
         \/ (\E d \in Ticks : Advance(d))
 Spec == Init /\ [][Next]_vars
 
